@@ -407,7 +407,7 @@ fn api_compat_mode(args: &[String], holes: bool, roundtrip: bool) {
     let all_versions = expand_version_mask(u32::MAX);
     let full: u32 = all_versions.iter().fold(0u32, |a, v| a | (*v as u32));
     #[derive(Clone)]
-    enum Extra { None, AttrEnum(AttributeName, EnumItem), AttrText(AttributeName), CdataEnum(EnumItem), AttrTextType(AttributeName) }
+    enum Extra { None, AttrEnum(AttributeName, EnumItem), AttrText(AttributeName), CdataEnum(EnumItem), AttrTextType(AttributeName), CdataText(&'static str) }
     struct Cand { path: Vec<(ElementName, ElementType)>, mask: u32, avail: u32, extra: Extra, what: String }
     let mut cands: Vec<Cand> = Vec::new();
     let mut seen: HashSet<ElementType> = HashSet::new();
@@ -438,6 +438,13 @@ fn api_compat_mode(args: &[String], holes: bool, roundtrip: bool) {
                     let mut am = 0u32;
                     for (n3, st3, m3, _) in t.sub_element_spec_iter() { if n3 == name { if let Some(a3) = st3.find_attribute_spec(aname) { am |= m3 & a3.version; } } }
                     cands.push(Cand { path: p2.clone(), mask: m & aver, avail: navail2 & am, extra: Extra::AttrTextType(aname), what: format!("attribute {} of {} exists only in the element type used in versions {:#x}", aname, name, am) });
+                }
+            }
+            // the same name listed with another element type (for other versions) whose text is specified differently: every candidate
+            // text takes part (only documents that are valid in their own version are compared, so texts this type refuses drop out)
+            if t.sub_element_spec_iter().any(|(n2, st2, _, _)| n2 == name && st2 != st && st2.chardata_spec().is_some()) && matches!(st.chardata_spec(), Some(CharacterDataSpec::Pattern { .. }) | Some(CharacterDataSpec::String { .. })) {
+                for cand in ec_value_candidates() {
+                    cands.push(Cand { path: p2.clone(), mask: m, avail: navail2, extra: Extra::CdataText(cand), what: format!("text {:?} of {}, whose element type depends on the version", cand, name) });
                 }
             }
             if seen.insert(st) {
@@ -474,8 +481,8 @@ fn api_compat_mode(args: &[String], holes: bool, roundtrip: bool) {
     let total_cands = cands.len();
     // spread the budget over the kinds of candidates
     let mut picked: Vec<&Cand> = Vec::new();
-    for kind in 0..5 {
-        let of_kind: Vec<&Cand> = cands.iter().filter(|c| matches!((&c.extra, kind), (Extra::None, 0) | (Extra::AttrEnum(..), 1) | (Extra::AttrText(..), 2) | (Extra::CdataEnum(..), 3) | (Extra::AttrTextType(..), 4))).collect();
+    for kind in 0..6 {
+        let of_kind: Vec<&Cand> = cands.iter().filter(|c| matches!((&c.extra, kind), (Extra::None, 0) | (Extra::AttrEnum(..), 1) | (Extra::AttrText(..), 2) | (Extra::CdataEnum(..), 3) | (Extra::AttrTextType(..), 4) | (Extra::CdataText(..), 5))).collect();
         let step = (of_kind.len() / (maxdocs / 4).max(1)).max(1);
         picked.extend(of_kind.into_iter().step_by(step).take(maxdocs / 4));
     }
@@ -496,6 +503,7 @@ fn api_compat_mode(args: &[String], holes: bool, roundtrip: bool) {
             Extra::AttrEnum(a, it) => cur.set_attribute(*a, CharacterData::Enum(*it)),
             Extra::AttrText(a) | Extra::AttrTextType(a) => cur.set_attribute(*a, CharacterData::String("x".to_string())),
             Extra::CdataEnum(it) => cur.set_character_data(CharacterData::Enum(*it)),
+            Extra::CdataText(t) => cur.set_character_data(CharacterData::String(t.to_string())),
         };
         if r.is_err() { continue; }
         let Ok(text) = file.serialize() else { continue };
